@@ -30,6 +30,154 @@ type popCfg struct {
 	// strGen, when set, replaces the built-in text string generator (the text engine draws from a wider alphabet
 	// and longer lengths); nil = the built-in one, whose random stream the other engines depend on.
 	strGen func() string
+
+	// --- used by the plan engine only; the zero values keep the generator (and its random stream) as before ---
+	// size: 0 small (slices <= 3, strings <= 11 runes, byte strings <= 19 bytes, big integers <= 300 bits);
+	// 1 medium (slices/batches up to 16, strings and byte strings up to 300 bytes, big integers up to 4096 bits);
+	// 2 large (slices/batches 17..200, strings and byte strings up to 70000 bytes, big integers up to 65536 bits),
+	// within budget so that one message stays below ~1 MiB.
+	size   int
+	budget int
+	// cyc: enumerated choices (operation, object type, key format, attribute name, credential type) are taken
+	// round-robin across the run instead of at random, so that every registered one is reached by construction.
+	cyc *cycler
+	// note: coverage counter hook (what was actually populated).
+	note func(string)
+	// wideVersions: header versions beyond 1.0..1.4 (majors/minors up to 11, negative components).
+	wideVersions bool
+}
+
+// cycler hands out round-robin indices per choice class.
+type cycler struct{ n map[string]int }
+
+func (c *cycler) next(class string, mod int) int {
+	if c.n == nil {
+		c.n = map[string]int{}
+	}
+	i := c.n[class]
+	c.n[class] = i + 1
+	return i % mod
+}
+
+func (p *popCfg) count(key string) {
+	if p.note != nil {
+		p.note(key)
+	}
+}
+
+// pick: index below n for an enumerated choice of the given class.
+func (p *popCfg) pick(class string, n int) int {
+	if p.cyc != nil {
+		return p.cyc.next(class, n)
+	}
+	return p.r.Intn(n)
+}
+
+func (p *popCfg) spend(n int) bool {
+	if p.budget >= n {
+		p.budget -= n
+		return true
+	}
+	return false
+}
+
+// seqLen: number of elements of a populated slice / batch (>= 1).
+func (p *popCfg) seqLen() int {
+	r := p.r
+	n := 1 + r.Intn(3)
+	switch p.size {
+	case 1:
+		if r.Chance(1, 3) {
+			n = 4 + r.Intn(13)
+		}
+	case 2:
+		if r.Chance(1, 3) {
+			if m := 17 + r.Intn(184); p.spend(m) {
+				n = m
+			}
+		} else if r.Chance(1, 3) {
+			n = 4 + r.Intn(13)
+		}
+	}
+	return n
+}
+
+func lenBucket(n int) string {
+	switch {
+	case n == 0:
+		return "0"
+	case n <= 3:
+		return "1-3"
+	case n <= 16:
+		return "4-16"
+	default:
+		return "17+"
+	}
+}
+
+func sizeBucket(n int) string {
+	switch {
+	case n < 20:
+		return "<20"
+	case n < 300:
+		return "20-299"
+	case n < 4096:
+		return "300-4095"
+	default:
+		return "4096+"
+	}
+}
+
+// dataLen: length of a populated string / byte string for the size levels >= 1 (-1: use the small generator).
+func (p *popCfg) dataLen() int {
+	r := p.r
+	switch p.size {
+	case 1:
+		if r.Chance(1, 4) {
+			return 12 + r.Intn(289)
+		}
+	case 2:
+		if r.Chance(1, 6) {
+			n := rng.Pick(r, []int{300, 511, 512, 513, 4095, 4096, 4097, 8191, 8192, 8193, 65535, 65536, 65537, 70000})
+			n += r.Intn(3) - 1
+			if r.Bool() {
+				n = 300 + r.Intn(20000)
+			}
+			if p.spend(n/64 + 1) {
+				return n
+			}
+		} else if r.Chance(1, 4) {
+			return 12 + r.Intn(289)
+		}
+	}
+	return -1
+}
+
+// fillOthers populates reflectively every exported, encodable field of the struct v that is not listed in
+// handled: the hand-written populators below set the fields their codecs know; a field added to such a struct
+// later is then populated (and must round-trip) without anyone touching this file.
+func (p *popCfg) fillOthers(v reflect.Value, handled ...string) {
+	t := v.Type()
+next:
+	for i := 0; i < t.NumField(); i++ {
+		f := t.Field(i)
+		if !f.IsExported() {
+			continue
+		}
+		if tag, _ := f.Tag.Lookup("ttlv"); tag == "-" {
+			continue
+		}
+		for _, h := range handled {
+			if h == f.Name {
+				continue next
+			}
+		}
+		if p.gatedOut(t, f.Name) {
+			continue
+		}
+		p.count("other-field." + t.Name() + "." + f.Name)
+		p.populate(v.Field(i))
+	}
 }
 
 func (p *popCfg) gatedOut(t reflect.Type, fieldName string) bool {
@@ -84,6 +232,20 @@ func (p *popCfg) genString() string {
 		return p.strGen()
 	}
 	r := p.r
+	if p.size > 0 {
+		if n := p.dataLen(); n >= 0 {
+			b := make([]byte, n)
+			for i := range b {
+				b[i] = byte('a' + r.Intn(26))
+			}
+			// a few multi-byte runes and markup characters, still n bytes of valid UTF-8
+			for k := 0; k+4 < n && k < 40; k += 9 {
+				copy(b[k:], rng.Pick(r, []string{"é", "€", "<", "&", "ß"}))
+			}
+			p.count("text." + sizeBucket(n))
+			return string(b)
+		}
+	}
 	n := r.Intn(12)
 	if r.Chance(1, 6) {
 		n = 0
@@ -150,15 +312,18 @@ func (p *popCfg) populate(v reflect.Value) {
 	case *payloads.GetResponsePayload:
 		x.ObjectType, x.Object = p.genObject()
 		x.UniqueIdentifier = p.genString()
+		p.fillOthers(v, "ObjectType", "Object", "UniqueIdentifier")
 		return
 	case *payloads.RegisterRequestPayload:
 		x.ObjectType, x.Object = p.genObject()
 		p.populate(reflect.ValueOf(&x.TemplateAttribute).Elem())
+		p.fillOthers(v, "ObjectType", "Object", "TemplateAttribute")
 		return
 	case *payloads.ExportResponsePayload:
 		x.ObjectType, x.Object = p.genObject()
 		x.UniqueIdentifier = p.genString()
 		p.populate(reflect.ValueOf(&x.Attribute).Elem())
+		p.fillOthers(v, "ObjectType", "Object", "UniqueIdentifier", "Attribute")
 		return
 	case *payloads.ImportRequestPayload:
 		x.UniqueIdentifier = p.genString()
@@ -170,6 +335,9 @@ func (p *popCfg) populate(v reflect.Value) {
 		ot, x.Object = p.genObject()
 		// the decoder finds the object's type in the first "Object Type" attribute
 		n := r.Intn(3)
+		if p.size > 0 && r.Bool() {
+			n = p.seqLen()
+		}
 		for i := 0; i < n; i++ {
 			var a kmip.Attribute
 			p.popAttribute(&a)
@@ -178,6 +346,8 @@ func (p *popCfg) populate(v reflect.Value) {
 			}
 		}
 		x.Attribute = append(x.Attribute, kmip.Attribute{AttributeName: kmip.AttributeNameObjectType, AttributeValue: ot})
+		p.count("slice." + lenBucket(len(x.Attribute)))
+		p.fillOthers(v, "UniqueIdentifier", "ReplaceExisting", "KeyWrapType", "Attribute", "Object")
 		return
 	case *kmip.UnknownPayload:
 		*x = *kmip.NewUnknownPayload(x.Operation(), p.genTTLVStruct()...)
@@ -188,6 +358,10 @@ func (p *popCfg) populate(v reflect.Value) {
 		if r.Chance(1, 10) {
 			n = 0
 		}
+		if p.size > 0 {
+			n = p.seqLen()
+		}
+		p.count("batch.req." + lenBucket(n))
 		x.BatchItem = nil
 		for i := 0; i < n; i++ {
 			var bi kmip.RequestBatchItem
@@ -195,10 +369,15 @@ func (p *popCfg) populate(v reflect.Value) {
 			x.BatchItem = append(x.BatchItem, bi)
 		}
 		x.Header.BatchCount = int32(n)
+		p.fillOthers(v, "Header", "BatchItem")
 		return
 	case *kmip.ResponseMessage:
 		p.populate(reflect.ValueOf(&x.Header).Elem())
 		n := 1 + r.Intn(3)
+		if p.size > 0 {
+			n = p.seqLen()
+		}
+		p.count("batch.resp." + lenBucket(n))
 		x.BatchItem = nil
 		for i := 0; i < n; i++ {
 			var bi kmip.ResponseBatchItem
@@ -206,6 +385,7 @@ func (p *popCfg) populate(v reflect.Value) {
 			x.BatchItem = append(x.BatchItem, bi)
 		}
 		x.Header.BatchCount = int32(n)
+		p.fillOthers(v, "Header", "BatchItem")
 		return
 	case *kmip.ProtocolVersion:
 		x.ProtocolVersionMajor = 1
@@ -214,9 +394,20 @@ func (p *popCfg) populate(v reflect.Value) {
 			x.ProtocolVersionMajor = int32(r.Intn(3))
 			x.ProtocolVersionMinor = int32(r.Intn(7))
 		}
+		if p.wideVersions && r.Chance(1, 10) {
+			// beyond the specified versions: two-digit components (a textual "1.10" < "1.9" comparison would show),
+			// major >= 3, and negative components (the Go fields are int32)
+			x.ProtocolVersionMajor = rng.Pick(r, []int32{1, 1, 2, 3, 9, 10, 11, -1})
+			x.ProtocolVersionMinor = rng.Pick(r, []int32{0, 5, 7, 9, 10, 11, 100, -1})
+		}
 		if p.ver == nil {
 			v := *x
 			p.ver = &v // the first ProtocolVersion populated is the header's
+			if x.ProtocolVersionMajor == 1 && x.ProtocolVersionMinor >= 0 && x.ProtocolVersionMinor <= 4 {
+				p.count(fmt.Sprintf("ver.1.%d", x.ProtocolVersionMinor))
+			} else {
+				p.count("ver.other")
+			}
 		}
 		return
 	}
@@ -228,10 +419,23 @@ func (p *popCfg) populate(v reflect.Value) {
 		v.SetInt(int64(time.Duration(uint32(r.U64())>>uint(r.Intn(32))) * time.Second))
 		return
 	case tBigInt:
-		v.Set(reflect.ValueOf(*tree.GenBig(r, 300)))
+		bits := 300
+		if p.size == 1 && r.Chance(2, 3) {
+			bits = 4096
+		} else if p.size == 2 {
+			bits = 4096
+			if p.spend(40) {
+				bits = 65536
+			}
+		}
+		b := tree.GenBig(r, bits)
+		if p.size > 0 {
+			p.count("big.bits." + sizeBucket(b.BitLen()))
+		}
+		v.Set(reflect.ValueOf(*b))
 		return
 	case tValue:
-		v.Set(reflect.ValueOf(toValue(tree.Gen(r, tree.GenOpts{MaxDepth: 2, MaxChildren: 3, MaxData: 12, MaxBigBits: 100, TextMode: p.textMode, ExtTags: p.extTags}, 1))))
+		v.Set(reflect.ValueOf(toValue(tree.Gen(r, p.treeOpts(), 1))))
 		return
 	case tTStruct:
 		v.Set(reflect.ValueOf(ttlv.Struct(p.genTTLVStruct())))
@@ -282,6 +486,12 @@ func (p *popCfg) populate(v reflect.Value) {
 				if p.fill == 2 && n == 0 {
 					n = 3
 				}
+				if p.size > 0 {
+					if m := p.dataLen(); m >= 0 {
+						n = m
+					}
+					p.count("bytes." + sizeBucket(n))
+				}
 				v.SetBytes(r.Bytes(n))
 			}
 			return
@@ -289,6 +499,12 @@ func (p *popCfg) populate(v reflect.Value) {
 		n := 0
 		if p.want() && p.depth < 12 {
 			n = 1 + r.Intn(3)
+			if p.size > 0 {
+				n = p.seqLen()
+			}
+		}
+		if p.size > 0 || p.note != nil {
+			p.count("slice." + lenBucket(n))
 		}
 		sl := reflect.MakeSlice(t, 0, n)
 		for i := 0; i < n; i++ {
@@ -376,18 +592,31 @@ func absDiff(a, b uint32) uint32 {
 	return b - a
 }
 
+// treeOpts: shape of the opaque generic trees (ttlv.Value / ttlv.Struct fields, custom attributes, unknown payloads).
+func (p *popCfg) treeOpts() tree.GenOpts {
+	o := tree.GenOpts{MaxDepth: 2, MaxChildren: 3, MaxData: 12, MaxBigBits: 100, TextMode: p.textMode, ExtTags: p.extTags}
+	if p.size > 0 && p.r.Chance(1, 3) && p.spend(20) {
+		o.MaxDepth, o.MaxChildren, o.MaxData, o.MaxBigBits = 4, 8, 400, 2048
+	}
+	return o
+}
+
 func (p *popCfg) genTTLVStruct() []ttlv.Value {
 	n := p.r.Intn(4)
+	if p.size > 0 && p.r.Chance(1, 4) {
+		n = p.seqLen()
+	}
 	var out []ttlv.Value
 	for i := 0; i < n; i++ {
-		out = append(out, toValue(tree.Gen(p.r, tree.GenOpts{MaxDepth: 2, MaxChildren: 3, MaxData: 12, MaxBigBits: 100, TextMode: p.textMode, ExtTags: p.extTags}, 1)))
+		out = append(out, toValue(tree.Gen(p.r, p.treeOpts(), 1)))
 	}
 	return out
 }
 
 func (p *popCfg) genObject() (kmip.ObjectType, kmip.Object) {
 	objs := p.s.Objects
-	o := objs[p.r.Intn(len(objs))]
+	o := objs[p.pick("object", len(objs))]
+	p.count(fmt.Sprintf("object.%d", o.ObjectType))
 	obj, err := kmip.NewObjectForType(kmip.ObjectType(o.ObjectType))
 	if err != nil {
 		panic(err)
@@ -407,18 +636,22 @@ func (p *popCfg) popRequestItem(x *kmip.RequestBatchItem) {
 		}
 		pl := kmip.NewUnknownPayload(op, p.genTTLVStruct()...)
 		x.Operation, x.RequestPayload = op, pl
+		p.count("op.req.unknown")
 	} else {
-		op := p.s.Ops[r.Intn(len(p.s.Ops))]
+		op := p.s.Ops[p.pick("op.req", len(p.s.Ops))]
 		pl := kmip.VerifNewRequestPayload(kmip.Operation(op.Op))
 		p.populate(reflect.ValueOf(pl).Elem())
 		x.Operation, x.RequestPayload = kmip.Operation(op.Op), pl
+		p.count(fmt.Sprintf("op.req.%d", op.Op))
 	}
 	if p.want() {
 		x.UniqueBatchItemID = r.Bytes(1 + r.Intn(8))
 	}
 	if p.want() {
 		x.MessageExtension = &kmip.MessageExtension{VendorIdentification: p.genString(), CriticalityIndicator: r.Bool(), VendorExtension: p.genTTLVStruct()}
+		p.count("msgext.req")
 	}
+	p.fillOthers(reflect.ValueOf(x).Elem(), "Operation", "UniqueBatchItemID", "RequestPayload", "MessageExtension")
 }
 
 func (p *popCfg) popResponseItem(x *kmip.ResponseBatchItem) {
@@ -430,14 +663,16 @@ func (p *popCfg) popResponseItem(x *kmip.ResponseBatchItem) {
 		x.Operation = op
 		if !failed {
 			x.ResponsePayload = kmip.NewUnknownPayload(op, p.genTTLVStruct()...)
+			p.count("op.resp.unknown")
 		}
 	} else if !(failed && r.Chance(1, 3)) {
-		op := p.s.Ops[r.Intn(len(p.s.Ops))]
+		op := p.s.Ops[p.pick("op.resp", len(p.s.Ops))]
 		x.Operation = kmip.Operation(op.Op)
 		if !failed {
 			pl := kmip.VerifNewResponsePayload(kmip.Operation(op.Op))
 			p.populate(reflect.ValueOf(pl).Elem())
 			x.ResponsePayload = pl
+			p.count(fmt.Sprintf("op.resp.%d", op.Op))
 		}
 	}
 	if failed {
@@ -455,7 +690,13 @@ func (p *popCfg) popResponseItem(x *kmip.ResponseBatchItem) {
 	}
 	if p.want() {
 		x.MessageExtension = &kmip.MessageExtension{VendorIdentification: p.genString(), CriticalityIndicator: r.Bool(), VendorExtension: p.genTTLVStruct()}
+		p.count("msgext.resp")
 	}
+	if failed {
+		p.count("resp.failed")
+	}
+	p.fillOthers(reflect.ValueOf(x).Elem(), "Operation", "UniqueBatchItemID", "ResultStatus", "ResultReason", "ResultMessage",
+		"AsynchronousCorrelationValue", "ResponsePayload", "MessageExtension")
 }
 
 func (p *popCfg) popAttribute(x *kmip.Attribute) {
@@ -464,16 +705,19 @@ func (p *popCfg) popAttribute(x *kmip.Attribute) {
 	switch {
 	case r.Chance(1, 8): // custom attribute: any TTLV value
 		x.AttributeName = kmip.AttributeName(rng.Pick(r, []string{"x-", "y-"}) + p.genString())
-		av := toValue(tree.Gen(r, tree.GenOpts{MaxDepth: 2, MaxChildren: 3, MaxData: 12, MaxBigBits: 100, TextMode: p.textMode, ExtTags: p.extTags}, 1))
+		av := toValue(tree.Gen(r, p.treeOpts(), 1))
 		av.Tag = kmip.TagAttributeValue // a generic value travels under the Attribute Value tag
 		x.AttributeValue = av
+		p.count("attr.custom")
 	case r.Chance(1, 12): // name unknown to the library
 		x.AttributeName = kmip.AttributeName("Vendor " + p.genString())
-		av := toValue(tree.Gen(r, tree.GenOpts{MaxDepth: 2, MaxChildren: 3, MaxData: 12, MaxBigBits: 100, TextMode: p.textMode, ExtTags: p.extTags}, 1))
+		av := toValue(tree.Gen(r, p.treeOpts(), 1))
 		av.Tag = kmip.TagAttributeValue
 		x.AttributeValue = av
+		p.count("attr.unknown")
 	default:
-		a := p.s.Attrs[r.Intn(len(p.s.Attrs))]
+		a := p.s.Attrs[p.pick("attr", len(p.s.Attrs))]
+		p.count("attr.name." + a.Name)
 		x.AttributeName = kmip.AttributeName(a.Name)
 		var ty reflect.Type
 		for _, at := range kmip.VerifDumpAttrTypes() {
@@ -488,13 +732,18 @@ func (p *popCfg) popAttribute(x *kmip.Attribute) {
 	if p.want() {
 		i := int32(r.Intn(5))
 		x.AttributeIndex = &i
+		p.count("attr.index")
 	}
+	p.fillOthers(reflect.ValueOf(x).Elem(), "AttributeName", "AttributeIndex", "AttributeValue")
 }
 
 func (p *popCfg) popCredential(x *kmip.Credential) {
-	r := p.r
+	_ = p.r
 	*x = kmip.Credential{}
-	switch r.Intn(3) {
+	ct := p.pick("credential", 3)
+	p.count(fmt.Sprintf("credential.%d", ct+1))
+	defer p.fillOthers(reflect.ValueOf(x).Elem(), "CredentialType", "CredentialValue")
+	switch ct {
 	case 0:
 		x.CredentialType = kmip.CredentialTypeUsernameAndPassword
 		x.CredentialValue.UserPassword = &kmip.CredentialValueUserPassword{}
@@ -513,7 +762,8 @@ func (p *popCfg) popCredential(x *kmip.Credential) {
 func (p *popCfg) popKeyBlock(x *kmip.KeyBlock) {
 	r := p.r
 	*x = kmip.KeyBlock{}
-	x.KeyFormatType = rng.Pick(r, keyFormats)
+	x.KeyFormatType = keyFormats[p.pick("keyfmt", len(keyFormats))]
+	defer p.fillOthers(reflect.ValueOf(x).Elem(), "KeyFormatType", "KeyCompressionType", "KeyValue", "CryptographicAlgorithm", "CryptographicLength", "KeyWrappingData")
 	if p.want() {
 		x.KeyCompressionType = kmip.KeyCompressionType(1 + r.Intn(4))
 	}
@@ -528,15 +778,24 @@ func (p *popCfg) popKeyBlock(x *kmip.KeyBlock) {
 		p.populate(reflect.ValueOf(x.KeyWrappingData).Elem())
 	}
 	if r.Chance(1, 8) {
+		p.count("keyfmt.no-value")
 		return // metadata only: no key value
 	}
 	kv := &kmip.KeyValue{}
 	x.KeyValue = kv
 	if r.Chance(1, 5) {
-		b := r.Bytes(r.Intn(24))
+		n := r.Intn(24)
+		if p.size > 0 {
+			if m := p.dataLen(); m >= 0 {
+				n = m
+			}
+		}
+		b := r.Bytes(n)
 		kv.Wrapped = &b
+		p.count("keyfmt.wrapped")
 		return
 	}
+	p.count(fmt.Sprintf("keyfmt.plain.%d", uint32(x.KeyFormatType)))
 	kv.Plain = &kmip.PlainKeyValue{}
 	km := &kv.Plain.KeyMaterial
 	switch x.KeyFormatType {
@@ -562,11 +821,22 @@ func (p *popCfg) popKeyBlock(x *kmip.KeyBlock) {
 		km.TransparentECPublicKey = &kmip.TransparentECPublicKey{}
 		p.populate(reflect.ValueOf(km.TransparentECPublicKey).Elem())
 	default:
-		b := r.Bytes(r.Intn(40))
+		n := r.Intn(40)
+		if p.size > 0 {
+			if m := p.dataLen(); m >= 0 {
+				n = m
+			}
+			p.count("bytes." + sizeBucket(n))
+		}
+		b := r.Bytes(n)
 		km.Bytes = &b
 	}
 	if p.want() && p.depth < 8 {
 		n := 1 + r.Intn(2)
+		if p.size > 0 {
+			n = p.seqLen()
+		}
+		p.count("keyattrs." + lenBucket(n))
 		for i := 0; i < n; i++ {
 			var a kmip.Attribute
 			p.popAttribute(&a)
